@@ -997,7 +997,8 @@ namespace BitSerializer::Convert::Utf
 		}
 
 		[[nodiscard]] bool IsEnd() const noexcept {
-			return mStartDataPtr == mEndDataPtr && mInputStream.eof();
+			// Failed stream (I/O error) will never provide more data, the state of stream is available for the caller
+			return mStartDataPtr == mEndDataPtr && (mInputStream.eof() || mInputStream.bad());
 		}
 
 		[[nodiscard]] UtfType GetSourceUtfType() const noexcept {
